@@ -127,6 +127,21 @@ def read_config(config_path):
     return cfg, [config_path] + cfg.read(includes)
 
 
+def _watcher_env(cfg, name, global_env):
+    """global environment overridden by the [env:...] sections matching
+    the watcher *name*, later sections winning"""
+    env = dict(global_env)
+    for section in cfg.sections():
+        if section.startswith('env:'):
+            patterns = [s.strip()
+                        for s in section.split("env:", 1)[1].split(',')]
+            if any(fnmatch(name, pattern) for pattern in patterns):
+                items = dict(cfg.items(section, noreplace=True))
+                items.pop('__name__', None)
+                env.update(items)
+    return env
+
+
 def get_config(config_file):
     if not os.path.exists(config_file):
         raise IOError("the configuration file %r does not exist\n" %
@@ -212,6 +227,10 @@ def get_config(config_file):
             watcher = watcher_defaults()
             watcher['name'] = section.split("watcher:", 1)[1]
 
+            # the typed options below are expanded while they are read:
+            # they see this watcher's [env:...] sections too
+            cfg.set_env(_watcher_env(cfg, watcher['name'], global_env))
+
             # create watcher options
             for opt, val in cfg.items(section, noreplace=True):
                 if opt in ('cmd', 'args', 'working_dir', 'uid', 'gid'):
@@ -262,6 +281,8 @@ def get_config(config_file):
                 else:
                     # freeform
                     watcher[opt] = val
+
+            cfg.set_env(global_env)
 
             if watcher['copy_env']:
                 watcher['env'] = dict(global_env)
